@@ -18,8 +18,11 @@ import SpyneModel.Generated.Facts15
 namespace SpyneModel.Props.C15
 open SpyneModel.Derive SpyneModel.Generated
 
-/-- the switches measured on /repo have their good values: Mandatory copies, every class owns its `_variants` -/
-theorem good_facts : GoodFacts facts15 := ⟨by decide, by decide⟩
+/-- the switches measured on /repo have their good values: Mandatory copies, every class owns its `_variants`,
+    a derived class gets a deep copy of `sqla_column_args` -/
+theorem good_facts : GoodFacts facts15 := ⟨by decide, by decide, by decide⟩
+
+instance : DeepCopy facts15 := ⟨by decide⟩
 
 /-! ### histories keep the variants discipline -/
 
@@ -103,7 +106,7 @@ theorem primitive_customize_exact (fuel : Nat) (ops : List Op) (src : Nat) (kw :
     (hsc : (runOps facts15 fuel (initHeap facts15) ops).cls[src]? = some sc)
     (hr : simpleCustomize facts15 src kw (runOps facts15 fuel (initHeap facts15) ops) = .ok h' id) (k : String) :
     attrOf h' id k
-      = match kwLookup (newAttrRec (runOps facts15 fuel (initHeap facts15) ops) sc.attrs
+      = match kwLookup (newAttrRec facts15 (runOps facts15 fuel (initHeap facts15) ops) sc.attrs
           (if sc.kind == .number then numberKw facts15 (runOps facts15 fuel (initHeap facts15) ops) sc.attrs kw else kw)).own k with
         | some v => some v
         | none => attrOf (runOps facts15 fuel (initHeap facts15) ops) src k :=
@@ -119,10 +122,21 @@ theorem complex_customize_exact (fuel f : Nat) (ops : List Op) (src : Nat) (kw :
     (runOps facts15 fuel (initHeap facts15) ops).cls.length ≤ id
       ∧ (∃ cl, h'.cls[id]? = some cl ∧ cl.kind = sc.kind ∧ cl.orig = some (sc.orig.getD src))
       ∧ ∀ k, attrOf h' id k
-          = match kwLookup (newAttrRec (runOps facts15 fuel (initHeap facts15) ops) sc.attrs kw).own k with
+          = match kwLookup (newAttrRec facts15 (runOps facts15 fuel (initHeap facts15) ops) sc.attrs kw).own k with
             | some v => some v
             | none => attrOf (runOps facts15 fuel (initHeap facts15) ops) src k :=
   custComplex_exact facts15 f src kw ca caa _ h' id (discipline_always fuel ops) sc hsc hr
+
+/-- container-valued attribute `sqla_column_args`: the derived class's column keywords are a dict of its own -
+    the source's keywords plus `primary_key` (`pk`) / `autoincrement` / `onupdate` / `server_default` as requested.
+    (That the source, its other derivatives and their users keep theirs is part of `frame_step_obs` /
+    `history_frame`: `obs1` contains the resolved column keywords.) -/
+theorem column_keywords_exact (src : Nat) (kw : Kw) (h h' : Heap) (id : Nat) (sc : Cls)
+    (hsc : h.cls[src]? = some sc) (hr : simpleCustomize facts15 src kw h = .ok h' id) :
+    (obs1 facts15 h' id).map (·.col)
+      = some (some (applyCol (((colH h sc.attrs).map (·.2)).getD [])
+          (colWrites (if sc.kind == .number then numberKw facts15 h sc.attrs kw else kw)))) :=
+  simpleCustomize_col facts15 src kw h h' id sc hsc hr
 
 /-- `Mandatory(primitive)`: `min_occurs = 1`, `nillable = False`, and `min_len = 1` for Unicode -/
 theorem mandatory_primitive_exact (fuel f : Nat) (ops : List Op) (src : Nat) (h' : Heap) (id : Nat) (sc : Cls)
@@ -255,6 +269,14 @@ example : ((s7.heap.cls[23]?).bind (fun c => (c.fields.head?).map (fun p => attr
 -- Integer32(ge=0) keeps the length guard of Integer32
 example : attrOf s8.heap 25 "max_str_len" = attrOf s8.heap 3 "max_str_len" ∧ attrOf s8.heap 25 "ge" = some (.int 0) := by
   decide +kernel
+-- Code = Unicode(max_len=32); Code(pk=True); Code(min_len=2): only the pk flavour is a primary key
+def c1 := apply facts15 1000 (initHeap facts15) (.customize 1 [("max_len", .int 32)] none none)
+def c2 := apply facts15 1000 c1.heap (.customize 12 [("pk", .bool true)] none none)
+def c3 := apply facts15 1000 c2.heap (.customize 12 [("min_len", .int 2), ("autoincrement", .bool true)] none none)
+example : (obs1 facts15 c3.heap 12).map (·.col) = some (some [])
+    ∧ (obs1 facts15 c3.heap 13).map (·.col) = some (some [("primary_key", .bool true)])
+    ∧ (obs1 facts15 c3.heap 14).map (·.col) = some (some [("autoincrement", .bool true)])
+    ∧ (obs1 facts15 c3.heap 1).map (·.col) = some none := by decide +kernel
 example : untouched facts15 1000 12 s4.heap [.append 13 "w" 1, .array 0 none [] false false, .mandatory 21] :=
   ⟨by decide +kernel, by decide +kernel, by decide +kernel, trivial⟩
 
